@@ -74,6 +74,12 @@ class SView:
 
 
 @dataclass
+class SOpt:
+    """An optional object (None or something): `x is None` <=> not present."""
+    present: z3.BoolRef
+
+
+@dataclass
 class SSlice:
     """a[lo:hi] of a 1-D array variable (read-only use: .min()/.max()/.sum())."""
     base: str
@@ -298,6 +304,8 @@ class Engine:
             return bv[n]
         if n in st.vars:
             return st.vars[n]
+        if not spec and n in self.c.attrs:      # a name the contract defines by a spec expression (block contracts)
+            return self.ev(ast.parse(self.c.attrs[n], mode="eval").body, st, True, ctx)
         if spec and n == "result":
             if "result" not in ctx:
                 raise ContractError("result used outside ensures")
@@ -407,6 +415,9 @@ class Engine:
             r = self.ev(c, st, spec, ctx)
             if isinstance(l, str) and isinstance(r, str) and isinstance(op, (ast.Eq, ast.NotEq)):
                 res = z3.BoolVal((l == r) == isinstance(op, ast.Eq))
+            elif isinstance(op, (ast.Is, ast.IsNot)) and (isinstance(l, SOpt) or isinstance(r, SOpt)) and (l is None or r is None):
+                o_ = l if isinstance(l, SOpt) else r
+                res = z3.Not(o_.present) if isinstance(op, ast.Is) else o_.present
             elif isinstance(op, (ast.Is, ast.IsNot)):
                 if r is None or l is None:
                     res = z3.BoolVal((l is None and r is None) == isinstance(op, ast.Is))
@@ -647,6 +658,12 @@ class Engine:
             raise OutOfSubset(f"call to {name}")
         if isinstance(f, ast.Attribute):
             recv = f.value
+            if f.attr == "__new__" and isinstance(recv, ast.Call) and getattr(recv.func, "id", "") == "super" \
+                    and len(e.args) == 3 and not spec:
+                # ndarray subclass construction: super().__new__(cls, shape, dtype) allocates an uninitialised array
+                fake = ast.Call(func=f, args=[e.args[1], e.args[2]], keywords=[])
+                ast.copy_location(fake, e)
+                return self.np_alloc("empty", fake, st, ctx)
             if isinstance(recv, ast.Name) and recv.id in ("np", "numpy") and f.attr in ("empty", "zeros", "ones") \
                     and not spec and e.args:
                 return self.np_alloc(f.attr, e, st, ctx)
@@ -787,6 +804,8 @@ class Engine:
                                                                  z3.Select(arr.term, i_ + j_ - k),
                                                                  z3.Select(arr.term, k))))
             return SArr(new, arr.shape, arr.dt, arr.elem, None, arr.dtname)
+        if name == "opt":          # opt(b): an optional object that is present iff b
+            return SOpt(to_bool(self.ev(e.args[0], st, True, ctx)))
         if name == "view_index":   # view_index(v): the fixed row/column index of a row/column view
             v = self.ev(e.args[0], st, True, ctx)
             if not isinstance(v, SView):
@@ -888,11 +907,16 @@ class Engine:
             cc = self.contracts.get(qn)
             if cc is None:
                 raise OutOfSubset(f"callee {qn} has no contract")
-        if e.keywords:
-            raise OutOfSubset("keyword arguments")
         pnames = list(cc.params)
-        if len(e.args) != len(pnames):
+        args_ = list(e.args)
+        if e.keywords:      # keyword arguments are matched to the contract's parameter names; unknown ones are ignored
+            kw = {k.arg: k.value for k in e.keywords}
+            for pn_ in pnames[len(args_):]:
+                if pn_ in kw:
+                    args_.append(kw[pn_])
+        if len(args_) != len(pnames):
             raise OutOfSubset(f"arity of {name}")
+        e = ast.Call(func=e.func, args=args_, keywords=[])
         actual = [self.ev(a, st, False, ctx) for a in e.args]
         env = dict(zip(pnames, actual))
         # callee ghosts are instantiated from the caller's `calls` map
@@ -1099,12 +1123,18 @@ class Engine:
 
     def bind(self, tgt, val, st, s):
         if isinstance(tgt, ast.Name):
-            if isinstance(val, (z3.ExprRef, SArr, SView, SSlice, tuple)) or val is None:
+            if isinstance(val, (z3.ExprRef, SArr, SView, SSlice, SOpt, tuple)) or val is None:
                 st.vars[tgt.id] = val
             else:
                 raise OutOfSubset(f"value {val!r}")
             return
         if isinstance(tgt, ast.Tuple):
+            if isinstance(val, SView) and val.axis == 0:
+                arr = st.vars[val.base]       # unpacking a row view: one read per column
+                ncols = arr.shape[1]
+                if z3.is_int_value(ncols) and ncols.as_long() == len(tgt.elts):
+                    val = tuple(self.read(arr, [val.idx, z3.IntVal(c)], f"{val.base}[row,{c}]", st, False)
+                                for c in range(len(tgt.elts)))
             if not isinstance(val, tuple) or len(val) != len(tgt.elts):
                 raise OutOfSubset("tuple unpack")
             for t, v in zip(tgt.elts, val):
@@ -1114,7 +1144,10 @@ class Engine:
             self.store_sub(tgt, to_num(val) if not is_bool(val) else val, st)
             return
         if isinstance(tgt, ast.Attribute):
-            st.vars[unparse(tgt)] = val
+            txt = unparse(tgt)
+            if self.c.assigns is not None and txt not in self.c.assigns:
+                self.emit("frame", f"{txt}@{self.stmt_label()}", z3.BoolVal(False), st.guard, self.c.props)
+            st.vars[txt] = val
             return
         raise OutOfSubset(f"assignment target {ast.unparse(tgt)}")
 
